@@ -63,7 +63,7 @@ func classify(e *env, o Op) string {
 			return "reconnect"
 		case o.Nonce == 0:
 			return "first"
-		case nonceStr(o.Nonce) != w.NonceSent:
+		case e.nstr(o.Nonce) != w.NonceSent:
 			return "stale"
 		case w.AlwaysRespond:
 			return "forced"
@@ -86,9 +86,9 @@ func classify(e *env, o Op) string {
 			return "dreconnect"
 		case w == nil:
 			return "dfirst"
-		case o.Nonce != 0 && nonceStr(o.Nonce) != w.NonceSent && len(o.Sub)+len(o.Unsub) > 0:
+		case o.Nonce != 0 && e.nstr(o.Nonce) != w.NonceSent && len(o.Sub)+len(o.Unsub) > 0:
 			return "dstale-with-changes"
-		case o.Nonce != 0 && nonceStr(o.Nonce) != w.NonceSent:
+		case o.Nonce != 0 && e.nstr(o.Nonce) != w.NonceSent:
 			return "dstale"
 		case o.Nonce == 0 && len(o.Sub)+len(o.Unsub)+len(o.Init) > 0:
 			return "dspontaneous-change"
@@ -755,7 +755,8 @@ func TestGen(t *testing.T) {
 		"sotw-random / delta-random (nonce in {empty,current,stale,never-sent}, names over {a,b,c,d}, error_detail, send " +
 		"success/failure), sotw-loop / delta-loop-* (reference client + FIFO channels + pushes, random schedule, drained to " +
 		"quiescence, client subscription compared with the server record), malformed (NACK anywhere, '*' and empty names, " +
-		"duplicates, unknown/empty/debug type URLs, SotW and delta mixed), fixed witnesses, per-type tables, " +
+		"duplicates, unknown/empty/debug type URLs, SotW and delta mixed), e2e-*-loop (the same closed loops through the real " +
+		"processRequest/processDeltaRequest with stub generators that sometimes return nil), fixed witnesses, per-type tables, " +
 		"deltaWatchedResources directly. A case is non-trivial when some step meets a branch other than first-request/send."
 	g := &gen{c: c}
 	root := vlib.NewRand(vlib.Seed() ^ 0xc04)
@@ -773,14 +774,16 @@ func TestGen(t *testing.T) {
 			f(rnd, id)
 		}
 	}
-	run(vlib.Scale(700, 12000), func(rnd *vlib.Rand, id int) { g.randomSotw(rnd, id, false) })
-	run(vlib.Scale(700, 12000), func(rnd *vlib.Rand, id int) { g.randomDelta(rnd, id, false) })
+	run(vlib.Scale(600, 12000), func(rnd *vlib.Rand, id int) { g.randomSotw(rnd, id, false) })
+	run(vlib.Scale(600, 12000), func(rnd *vlib.Rand, id int) { g.randomDelta(rnd, id, false) })
 	run(vlib.Scale(150, 3000), func(rnd *vlib.Rand, id int) { g.randomSotw(rnd, id, true) })
 	run(vlib.Scale(150, 3000), func(rnd *vlib.Rand, id int) { g.randomDelta(rnd, id, true) })
 	run(vlib.Scale(450, 8000), func(rnd *vlib.Rand, id int) { g.loopSotw(rnd, id) })
 	run(vlib.Scale(300, 5000), func(rnd *vlib.Rand, id int) { g.loopDelta(rnd, id, false) })
 	run(vlib.Scale(300, 5000), func(rnd *vlib.Rand, id int) { g.loopDelta(rnd, id, true) })
 	run(vlib.Scale(250, 4000), func(rnd *vlib.Rand, id int) { g.dwr(rnd, id) })
+	run(vlib.Scale(180, 4000), func(rnd *vlib.Rand, id int) { g.loopE2E(rnd, id, false) })
+	run(vlib.Scale(180, 4000), func(rnd *vlib.Rand, id int) { g.loopE2E(rnd, id, true) })
 
 	if err := c.Flush(); err != nil {
 		t.Fatal(err)
